@@ -221,6 +221,13 @@ def evalE (c : Ctx) : Nat → Env → Expr → Option Val
       match evalArgs c fuel env args with
       | none => none
       | some vs =>
+        if f == "multiSplit" then
+          match vs with
+          | .str s :: seps =>
+            (seps.mapM fun (v : Val) => match v with | Val.str x => some x | _ => none).map fun ss =>
+              Val.strs (multiSplit s ss)
+          | _ => none
+        else
         match f, vs with
         | "len", [.strs l] => some (.int l.length)
         | "len", [.str s] => some (.int s.length)
@@ -233,14 +240,7 @@ def evalE (c : Ctx) : Nat → Env → Expr → Option Val
         | "appendSpread", [.strs l, .strs xs] => some (.strs (l ++ xs))
         | "recursiveCheck", [.strs vals, .funcs fs] =>
           some (.bool (recursiveCheck (fs.map fun fn v => callFn c fuel fn v == some true) vals).1)
-        | _, _ =>
-          if f == "multiSplit" then
-            match vs with
-            | .str s :: seps =>
-              (seps.mapM fun (v : Val) => match v with | Val.str x => some x | _ => none).map fun ss =>
-                Val.strs (multiSplit s ss)
-            | _ => none
-          else none
+        | _, _ => none
     | .handler f e =>
       match evalE c fuel env e with
       | some (.str s) => (callFn c fuel f s).map Val.bool
